@@ -206,13 +206,14 @@ Definition sess0 : sess :=
 Inductive out :=
 | OPads | OLcp (c : nat) | OPap (c : nat) | OChap (c : nat) | OIpcp (c : nat) | OIp6cp (c : nat)
 | ORa | ONa | OReq (k : nat) | OLifeA | OLifeR | OSbAdd | OSbDel | OProg
+| ODh6Adv | ODh6Reply | OSb6Add      (* DHCPv6 over PPP: ADVERTISE, REPLY with an address, dataplane IPv6 binding *)
 (* ghost markers, not visible to the harness *)
 | GAlloc | GLcpDown | GLcpUp.
 
 (* what the property calls service *)
 Definition service (o : out) : bool :=
   match o with
-  | OIpcp _ | OIp6cp _ | ORa | ONa | OLifeA | OSbAdd | GAlloc => true
+  | OIpcp _ | OIp6cp _ | ORa | ONa | OLifeA | OSbAdd | GAlloc | ODh6Adv | ODh6Reply | OSb6Add => true
   | _ => false
   end.
 
@@ -361,7 +362,8 @@ Inductive frame :=
 | FrLcp (c : cframe) | FrLcpX (x : lcpx)
 | FrIpcp (c : cframe) | FrIp6cp (c : cframe)
 | FrPapReq | FrPapBad | FrPapOther | FrChapResp | FrChapBad | FrChapOther
-| FrRs | FrNs | FrIp6Junk | FrUnkProto | FrShort.
+| FrRs | FrNs | FrIp6Junk | FrUnkProto | FrShort
+| FrDh6Sol | FrDh6Req.     (* DHCPv6 SOLICIT / REQUEST (RENEW) carried in PPP 0x0057, UDP 547 *)
 Inductive timer := TLcp | TIpcp | TIp6cp | TChap.
 Inductive akind := AAcc | AAccIp | ARej | AErr.
 Definition allowed_of (a : akind) : bool := match a with AAcc | AAccIp => true | _ => false end.
@@ -395,6 +397,12 @@ Definition handle_frame (v : vr) (i : nat) (f : frame) (m : mach) : mach :=
   | FrRs => if in_net (ph s) then match fs (ip6cp s) with Opened => emit ORa m | _ => m end else m
   | FrNs => if in_net (ph s) then match fs (ip6cp s) with Opened => emit ONa m | _ => m end else m
   | FrIp6Junk => m
+  (* dispatcher: network phase and IPv6CP Opened; pppoe/dhcpv6.go forwardDHCPv6: ipv6cpOpen; a REPLY to a
+     REQUEST binds the address in the dataplane (bindDHCPv6) *)
+  | FrDh6Sol => if in_net (ph s) then match fs (ip6cp s) with Opened => if ip6cp_open s then emit ODh6Adv m else m | _ => m end else m
+  | FrDh6Req => if in_net (ph s) then match fs (ip6cp s) with
+                                     | Opened => if ip6cp_open s then emit OSb6Add (emit ODh6Reply m) else m
+                                     | _ => m end else m
   | FrUnkProto => emit (OLcp cProtoRej) m
   | FrShort => m
   end.
@@ -467,7 +475,12 @@ Definition step (v : vr) (st : state) (e : event) : state * list (nat * out) :=
     on_slot st i (fun m => if live (ms m) then handle_frame v i f m else m)
   | EvAAA k a =>
     match find_idx (pend_matches v k) (sl st) 0 with
-    | Some i => on_slot st i (on_auth_result v i (allowed_of a) (match a with AAccIp => true | _ => false end))
+    | Some i =>
+      (* handleAAAResponse: onAuthResult under the session lock; since c6c869c a rejected or failed authentication
+         then runs the dead-peer teardown of that session at once (removed from the indexes, terminate()) *)
+      on_slot st i (fun m =>
+        let m1 := on_auth_result v i (allowed_of a) (match a with AAccIp => true | _ => false end) m in
+        if vrep v && negb (allowed_of a) then terminate (upd (set_live false) m1) else m1)
     | None => (st, [])
     end
   | EvTimer i t => on_slot st i (handle_timer v i t)
